@@ -17,13 +17,16 @@ def run(m, chk):
         "weighted inner product that reproduction tests cannot see); the interpolation nodes, both knot vectors and both weight vectors reach the least-squares matrices at both lstsq call sites (ARG-FLOW); the committed "
         "control points depend on them (DEP-MAY); the source curve is not modified. Orthogonality, optimality and the meaning of the returned error are not decided."
     )
-    chk.decides = ["PAIR (func2func)", "ARG-FLOW", "DEP-MAY of the committed points", "PURE(other)", 'POLY-ONLY', 'JACOBIAN (span sums of the Gram matrices carry the span length)']
+    chk.decides = ["PAIR (func2func)", "ARG-FLOW", "DEP-MAY of the committed points", "PURE(other)", 'POLY-ONLY', 'JACOBIAN (span sums of the Gram matrices carry the span length)', 'OPEN-NODES (the Gram quadrature samples no span end)']
     chk.not_decided = ["L2-orthogonality of the residual", "D = C when C lies in S", "sign / scale of the returned error"]
     pairing(r, chk, ["heavy.LeastSquare.func2func"], floor=4)
     fit_flow(r, chk)
     from .extra import jacobian, poly_only
 
     jacobian(r, chk, ["heavy.LeastSquare.func2func"])
+    from .c10 import open_nodes
+
+    open_nodes(r, chk, "heavy.LeastSquare.func2func")
     poly_only(r, chk, [FQ], floor=2)
     arg_flow(r, chk, "ARG-FLOW", FQ, "LeastSquare.spline2spline", "oldknotvector", ["other.knotvector"])
     arg_flow(r, chk, "ARG-FLOW", FQ, "LeastSquare.spline2spline", "newknotvector", ["self.knotvector"])
@@ -33,7 +36,7 @@ def run(m, chk):
     arg_flow(r, chk, "ARG-FLOW", FQ, "LeastSquare.func2func", "newweights", ["self.weights"], what="rational target space")
     arg_flow(r, chk, "ARG-FLOW", "heavy.LeastSquare.spline2spline", "LeastSquare.func2func", "oldknotvector", ["oldknotvector"])
     arg_flow(r, chk, "ARG-FLOW", "heavy.LeastSquare.spline2spline", "LeastSquare.func2func", "newknotvector", ["newknotvector"])
-    committed_deps(r, chk, FQ, CURVE_FIELDS[1], ["other.ctrlpoints", "other.knotvector", "self.knotvector", "nodes"])
+    committed_deps(r, chk, FQ, CURVE_FIELDS[1], ["other.ctrlpoints", "other.knotvector", "other.weights", "self.knotvector", "self.weights", "nodes"])
     # the returned matrices of func2func depend on all five inputs
     ctx = r.root("heavy.LeastSquare.func2func")
     for nid, v in sorted(ctx.ret_sites.items()):
